@@ -209,7 +209,7 @@ impl Property for C07 {
         }
     }
     fn required_labels(&self, _tier: Tier) -> Vec<&'static str> {
-        vec!["nontrivial", "term-name-multibyte-at-255", "gene-name-multibyte-at-255", "name-over-255", "names-fit", "obsolete", "replaced", "empty-section", "record-without-terms", "max-term-id", "max-record-id", "file>65535-bytes", "non-calendar-version", "replacement-beyond-id-space", "bulk>65535-terms", "depth>255"]
+        vec!["nontrivial", "term-name-multibyte-at-255", "gene-name-multibyte-at-255", "name-over-255", "names-fit", "obsolete", "replaced", "empty-section", "record-without-terms", "max-term-id", "max-record-id", "file>65535-bytes", "non-calendar-version", "replacement-beyond-id-space", "bulk>65535-terms", "depth>255", "direct-parents>255"]
     }
     fn run_generated(&self, tier: Tier, seed: u64, n: u64, stats: &mut Stats) -> Option<(Value, Failure)> {
         run_typed(strategy(tier), seed, n, stats, check)
@@ -236,6 +236,17 @@ impl Property for C07 {
             }
             return Ok(r);
         }
+        if let Some(b) = case.get("fanin") {
+            // one term with more direct parents than an 8-bit counter holds (see `fanin_facts`)
+            let v: (u32, u32, u32, PathSel) = serde_json::from_value(b.clone()).map_err(|e| e.to_string())?;
+            stats.cases += 1;
+            let c = OntCase { facts: super::common::fanin_facts(v.0, v.1, v.2), path: v.3, noise: Default::default() };
+            let r = check(&c, stats);
+            if r.is_ok() {
+                stats.label("direct-parents>255");
+            }
+            return Ok(r);
+        }
         replay_typed::<OntCase, _>(case, stats, check)
     }
     fn isolated_plans(&self, tier: Tier, seed: u64) -> Vec<Value> {
@@ -244,6 +255,10 @@ impl Property for C07 {
         if tier == Tier::Thorough {
             out.push(json!({"bulk": (70_100u32, mult, 200u32, PathSel::Bin(3))}));
             out.push(json!({"deep": (4200u32, mult, 30u32, PathSel::BuilderDefaults)}));
+        }
+        out.push(json!({"fanin": (300u32, mult, 10u32, PathSel::BuilderDefaults)}));
+        if tier == Tier::Thorough {
+            out.push(json!({"fanin": (66_000u32, mult, 30u32, PathSel::Bin(3))}));
         }
         out
     }
